@@ -2,8 +2,8 @@ import MesaModel.Model.VizLayers
 /-!
 Model of the default marker size `s_default` of the `draw_*` functions (mesa/visualization/mpl_space_drawing.py):
 `(180 / extent)²` with the extent of the space — `max(width, height)` for grids and continuous spaces, the larger
-side of the bounding box of the centroids for Voronoi grids, of the layout for networks (fix V12: a layout without
-extent, i.e. a single node, counts as extent 1).  The layout of a network with several nodes is networkx's and not
+side of the bounding box of the centroids for Voronoi grids, of the layout for networks (fixes V12, V15: a layout /
+bounding box without extent, i.e. a single node / centroid, counts as extent 1).  The layout of a network with several nodes is networkx's and not
 modelled.
 -/
 namespace Mesa.Viz
@@ -30,7 +30,10 @@ def defaultSize (sp : Space) : SizeDefault :=
   | .netgrid | .net =>
     -- `width`, `height` of the layout; `(max(width, height) or 1)` (fix V12)
     if sp.cells.length = 0 then .undefined else if sp.cells.length = 1 then sizeOfExtent 1 else .layout
-  | .vor => sizeOfExtent (max (spread (sp.cells.map (·.x))) (spread (sp.cells.map (·.y))))
+  | .vor =>
+    -- `(max(width, height) or 1)` (fix V15: a single centroid has no extent)
+    let e := max (spread (sp.cells.map (·.x))) (spread (sp.cells.map (·.y)))
+    sizeOfExtent (if e = 0 then 1 else e)
   | _ => sizeOfExtent (max (sp.w : Int) (sp.h : Int))
 
 end Mesa.Viz
